@@ -138,7 +138,13 @@ def record(sp, rs, k, thorough):
 
 
 CASES = [("<<<<2, 0>>, <<0, 1>>>>", 2), ("<<<<2, 1>>, <<1, 2>>>>", 3), ("<<<<1, 1>>, <<1, 1>>>>", 2), ("<<<<2, 0>>, <<0, 2>>>>", 2), ("<<<<2, 2>>, <<2, 2>>>>", 4),
-         ("<<<<2, 1, 0>>, <<1, 2, 0>>, <<0, 0, 3>>>>", 3), ("<<<<1, 1, 1>>, <<1, 1, 1>>, <<1, 1, 1>>>>", 3)]
+         ("<<<<2, 1, 0>>, <<1, 2, 0>>, <<0, 0, 3>>>>", 3), ("<<<<1, 1, 1>>, <<1, 1, 1>>, <<1, 1, 1>>>>", 3),
+         # operators on IMAGES (the iterate is a 2-D / 3-D array): 4 and 6 unknowns; the top eigenvector of the first is the
+         # full-rank matrix [[1, 0], [0, 1]], the others are Kronecker products (rank-one top eigenvector, transient is not)
+         ("<<<<2, 0, 0, 1>>, <<0, 1, 0, 0>>, <<0, 0, 1, 0>>, <<1, 0, 0, 2>>>>", 3),
+         ("<<<<4, 0, 2, 0>>, <<0, 2, 0, 1>>, <<2, 0, 4, 0>>, <<0, 1, 0, 2>>>>", 6),
+         ("<<<<2, 1, 0, 2, 1, 0>>, <<1, 2, 0, 1, 2, 0>>, <<0, 0, 3, 0, 0, 3>>, <<2, 1, 0, 2, 1, 0>>, <<1, 2, 0, 1, 2, 0>>, <<0, 0, 3, 0, 0, 3>>>>", 6)]
+ARRAY_SHAPES = {2: [[2], [2, 1], [1, 2]], 3: [[3], [3, 1], [1, 1, 3]], 4: [[4], [2, 2], [4, 1], [2, 1, 2]], 6: [[6], [2, 3], [3, 2], [1, 2, 3]]}
 
 
 def run(ctx):
@@ -146,8 +152,9 @@ def run(ctx):
 
     r = core.EngineResult("espirit")
     wd = tlc.fresh_dir("espirit_%s" % ctx.tier)
-    body = ("EXTENDS PowerMethod\nMCCases == {%s}\nMCStarts(n) == IF n = 2 THEN {<<a, b>> : a \\in {-1, 0, 1, 2}, b \\in {-1, 0, 3}} ELSE {<<a, b, c>> : a \\in {-1, 0, 2}, b \\in {0, 1}, c \\in {-1, 1}}\n"
-            % ", ".join("<<%s, %d>>" % c for c in CASES))
+    body = ("EXTENDS PowerMethod\nMCCases == {%s}\nMCStarts(n) == IF n = 2 THEN {<<a, b>> : a \\in {-1, 0, 1, 2}, b \\in {-1, 0, 3}} ELSE IF n = 3 THEN {<<a, b, c>> : a \\in {-1, 0, 2}, b \\in {0, 1}, c \\in {-1, 1}}\n"
+            "  ELSE IF n = 4 THEN {<<a, b, c, d>> : a \\in {-1, 2}, b \\in {0, 1}, c \\in {-1, 1}, d \\in {0, 1, 3}} ELSE {<<a, b, 1, 0, c, d>> : a \\in {-1, 2}, b \\in {0, 1}, c \\in {-1, 1}, d \\in {0, 2}}\n"
+            % ", ".join("<<%s, %d, %d>>" % (c[0], c[1], 3 if c[1] >= 6 else 4) for c in CASES))
     cfg = "INIT Init\nNEXT Next\nCONSTANTS\n Cases <- MCCases\n Starts <- MCStarts\n MaxUpdates = %d\nINVARIANT Monotone\nINVARIANT BelowLambdaMax\n" % (4 if ctx.thorough else 4)
     tlc.write_mc(wd, "MC_PowerMethod", body, cfg)
     res = tlc.run_tlc(wd, "MC_PowerMethod", dump=True, coverage=False, timeout=900)
@@ -163,19 +170,28 @@ def run(ctx):
             continue
         nrep += 1
         A = np.array(st["A"], dtype=np.float64)
-        x = np.array(st["v0"], dtype=np.float64)
-        alg = sp.alg.PowerMethod(lambda v: A @ v, x, max_iter=st["k"])
-        ests = []
-        while not alg.done():
-            alg.update()
-            ests.append(alg.max_eig)
         want = float(Fraction(st["est2"][0], st["est2"][1]))
-        if len(ests) != st["k"] or abs(ests[-1] ** 2 - want) > 1e-10 * max(1.0, want):
-            r.violations.append(core.Violation(["C15"], "espirit", {"kind": "power_estimate", "A": [list(x_) for x_ in st["A"]], "v0": list(st["v0"]), "k": st["k"]},
-                                               "PowerMethod max_eig^2 after %d updates = %s, exact %.12g" % (st["k"], ests[-1] ** 2 if ests else None, want), {}))
-        if any(b < a - 1e-12 for a, b in zip(ests[1:], ests[2:])) or any(e > st["lmax"] + 1e-9 for e in ests[1:]):
-            r.violations.append(core.Violation(["C15"], "espirit", {"kind": "power_monotone", "A": [list(x_) for x_ in st["A"]], "v0": list(st["v0"]), "k": st["k"]},
-                                               "eigenvalue estimates %s decrease or exceed lambda_max = %d" % (ests, st["lmax"]), {}))
+        # the iterate as the array a caller holds: a vector, a column, an image, a volume (the operator acts on the flattened array)
+        for shape in ARRAY_SHAPES[len(st["v0"])]:
+            for cplx in (False, True):
+                x = np.array(st["v0"], dtype=np.complex128 if cplx else np.float64).reshape(shape) * ((0.6 + 0.8j) if cplx else 1.0)
+                try:
+                    alg = sp.alg.PowerMethod(lambda v: (A @ v.ravel()).reshape(shape), x, max_iter=st["k"])
+                    ests = []
+                    while not alg.done():
+                        alg.update()
+                        ests.append(alg.max_eig)
+                except Exception as e:
+                    if not core.raised_in_code_under_test():
+                        raise
+                    r.violations.append(core.Violation(["C15"], "espirit", {"kind": "power_raises", "A": [list(x_) for x_ in st["A"]], "shape": shape},
+                                                       "PowerMethod on a %s %s iterate raised %r" % (shape, "complex" if cplx else "real", e), {}))
+                    continue
+                key = {"kind": "power_estimate", "A": [list(x_) for x_ in st["A"]], "v0": list(st["v0"]), "k": st["k"], "shape": shape}
+                if len(ests) != st["k"] or abs(ests[-1] ** 2 - want) > 1e-10 * max(1.0, want):
+                    r.violations.append(core.Violation(["C15"], "espirit", key, "PowerMethod (iterate of shape %s, %s) max_eig^2 after %d updates = %s, exact %.12g" % (shape, "complex" if cplx else "real", st["k"], ests[-1] ** 2 if ests else None, want), {}))
+                if any(b < a - 1e-12 for a, b in zip(ests[1:], ests[2:])) or any(e > st["lmax"] + 1e-9 for e in ests[1:]):
+                    r.violations.append(core.Violation(["C15"], "espirit", dict(key, kind="power_monotone"), "eigenvalue estimates %s (iterate of shape %s) decrease or exceed lambda_max = %d" % (ests, shape, st["lmax"]), {}))
     r.traces += nrep
     r.evaluations += nrep
     r.nontrivial += nrep
